@@ -438,6 +438,7 @@ func runC15(c *Ctx) {
 	if c.Prop == "C15" {
 		ruleKeyTypeAgreement(c, "C15.8")
 		c04PageLSN(c, "C15.9")
+		ruleCapacityAsGiven(c, "C15.10")
 	}
 }
 
@@ -536,6 +537,8 @@ func runC16(c *Ctx) {
 	}
 	c.Rule("C16.9", "the cache refuses an insertion only when every cached page is dirty (C15.4, C15.5): a refusal while clean pages remain makes a statement fail with a small cache that succeeds with a large one")
 	c04PageLSN(c, "C16.10")
+	rulePageObjectFresh(c, "C16.11")
+	ruleFlushLoopComplete(c, "C16.12")
 	c11MarkDirty(c, "C16.4")
 	c08SizeGuard(c, "C16.4s")
 	ruleKeyTypeAgreement(c, "C16.7")
